@@ -151,6 +151,34 @@ impl E {
             E::Rec(fs) => fs.iter().map(|(_, e)| e).collect(),
         }
     }
+    /// `BoolLit && BoolLit` and `BoolLit || BoolLit` are folded when an AST is constructed (documented on
+    /// the expression builder); structural comparisons are made modulo this fold.
+    pub fn fold_bool_lits(&self) -> E {
+        let f = |x: &E| b(x.fold_bool_lits());
+        match self {
+            E::Lit(_) | E::Var(_) => self.clone(),
+            E::If(a, x, y) => E::If(f(a), f(x), f(y)),
+            E::And(x, y) => match (x.fold_bool_lits(), y.fold_bool_lits()) {
+                (E::Lit(V::Bool(p)), E::Lit(V::Bool(q))) => E::bool(p && q),
+                (p, q) => E::And(b(p), b(q)),
+            },
+            E::Or(x, y) => match (x.fold_bool_lits(), y.fold_bool_lits()) {
+                (E::Lit(V::Bool(p)), E::Lit(V::Bool(q))) => E::bool(p || q),
+                (p, q) => E::Or(b(p), b(q)),
+            },
+            E::Not(x) => E::Not(f(x)),
+            E::Neg(x) => E::Neg(f(x)),
+            E::Bin(op, x, y) => E::Bin(*op, f(x), f(y)),
+            E::IsEmpty(x) => E::IsEmpty(f(x)),
+            E::GetAttr(x, a) => E::GetAttr(f(x), a.clone()),
+            E::Has(x, p) => E::Has(f(x), p.clone()),
+            E::Like(x, p) => E::Like(f(x), p.clone()),
+            E::Is(x, t, y) => E::Is(f(x), t.clone(), y.as_ref().map(|y| f(y))),
+            E::Set(xs) => E::Set(xs.iter().map(|x| x.fold_bool_lits()).collect()),
+            E::Rec(fs) => E::Rec(fs.iter().map(|(k, e)| (k.clone(), e.fold_bool_lits())).collect()),
+            E::Call(g, xs) => E::Call(g.clone(), xs.iter().map(|x| x.fold_bool_lits()).collect()),
+        }
+    }
     /// Remove surface sugar (`!=`, `>`, `>=`, `has a.b.c`, `is T in e`) — the core language.
     pub fn desugar(&self) -> E {
         match self {
@@ -173,19 +201,18 @@ impl E {
             E::GetAttr(x, a) => E::GetAttr(b(x.desugar()), a.clone()),
             E::Has(x, path) => {
                 let x = x.desugar();
-                // e has a.b.c  ==>  e has a && (e.a has b && e.a.b has c)   (right-nested)
-                let mut conj: Vec<E> = Vec::new();
+                // e has a.b.c  ==>  (e has a && e.a has b) && e.a.b has c   (left fold, as the language definition gives it)
                 let mut cur = x;
+                let mut acc: Option<E> = None;
                 for a in path {
-                    conj.push(E::Has(b(cur.clone()), vec![a.clone()]));
+                    let h = E::Has(b(cur.clone()), vec![a.clone()]);
+                    acc = Some(match acc {
+                        None => h,
+                        Some(prev) => E::And(b(prev), b(h)),
+                    });
                     cur = E::GetAttr(b(cur), a.clone());
                 }
-                let mut it = conj.into_iter().rev();
-                let mut acc = it.next().expect("non-empty has path");
-                for c in it {
-                    acc = E::And(b(c), b(acc));
-                }
-                acc
+                acc.expect("non-empty has path")
             }
             E::Like(x, p) => E::Like(b(x.desugar()), p.clone()),
             E::Is(x, t, None) => E::Is(b(x.desugar()), t.clone(), None),
